@@ -157,17 +157,11 @@ fn run_once_budget<K: Kit>(kit: &K, sc: &Scenario) -> Result<(Drv<K>, Res), Stri
     run_once_opts(kit, sc, false)
 }
 
-/// Like `exec` (planner RNG), but the planner object has had an earlier life on *another space
-/// object of the same type* - a copy of the space that is 64 times larger and as coarse as the
-/// resolution fraction allows, an obstacle-free problem, a few dozen iterations. Nothing of
-/// that life may survive the new `setup`.
-pub fn exec_after_life_elsewhere<K: Kit>(kit: &K, sc: &Scenario) -> Result<(Drv<K>, Res), String> {
-    crate::watch::set_case(sc.to_json());
-    oxmpl::verif::arm(0);
-    let build_secs = (sc.prm_samples as f64 - 0.5) * 1e-3;
-    let mut d = Drv::new(kit, &sc.params, build_secs).map_err(|r| format!("constructor failed: {}", r.short()))?;
-    d.log.borrow_mut().budget = sc.query_budget;
-    let mut spec2 = sc.problem.spec.clone();
+/// The earlier life of `exec_after_life_elsewhere`, for any driver: set up and solve an
+/// obstacle-free problem on a 64 times larger, coarsest-resolution copy of `spec`, then wipe the
+/// event log.
+pub fn live_elsewhere<K: Kit>(d: &mut Drv<K>, kit: &K, spec: &crate::spec::Spec, salt: u64, prm: bool) -> Result<(), String> {
+    let mut spec2 = spec.clone();
     for c in spec2.comps.iter_mut() {
         if let crate::spec::CK::R { bounds: Some(bs), .. } = &mut c.kind {
             for bnd in bs.iter_mut() {
@@ -178,7 +172,7 @@ pub fn exec_after_life_elsewhere<K: Kit>(kit: &K, sc: &Scenario) -> Result<(Drv<
     }
     let kit2 = K::new(spec2.clone());
     if kit2.build().is_ok() {
-        let mut r = crate::util::Sm::derive(sc.params.seed.unwrap_or(0), &[4242, sc.iters]);
+        let mut r = crate::util::Sm::derive(d.params.seed.unwrap_or(0), &[4242, salt]);
         let pre = crate::world::Problem {
             spec: spec2.clone(),
             world: crate::world::World::default(),
@@ -190,9 +184,16 @@ pub fn exec_after_life_elsewhere<K: Kit>(kit: &K, sc: &Scenario) -> Result<(Drv<
             tags: vec![],
         };
         d.kit = kit2;
-        let inst = d.install(&pre, SampleMode::PlannerRng)?;
+        let inst = d.install(&pre, SampleMode::PlannerRng);
+        let inst = match inst {
+            Ok(i) => i,
+            Err(e) => {
+                d.kit = kit.clone();
+                return Err(e);
+            }
+        };
         if d.setup(inst) == Res::Done {
-            if sc.params.kind == PKind::Prm {
+            if prm {
                 let _ = d.construct_roadmap(true);
             }
             let _ = d.solve_iters(40);
@@ -204,6 +205,20 @@ pub fn exec_after_life_elsewhere<K: Kit>(kit: &K, sc: &Scenario) -> Result<(Drv<
         l.n_uniform = 0;
         l.n_goal_sample = 0;
     }
+    Ok(())
+}
+
+/// Like `exec` (planner RNG), but the planner object has had an earlier life on *another space
+/// object of the same type* - a copy of the space that is 64 times larger and as coarse as the
+/// resolution fraction allows, an obstacle-free problem, a few dozen iterations. Nothing of
+/// that life may survive the new `setup`.
+pub fn exec_after_life_elsewhere<K: Kit>(kit: &K, sc: &Scenario) -> Result<(Drv<K>, Res), String> {
+    crate::watch::set_case(sc.to_json());
+    oxmpl::verif::arm(0);
+    let build_secs = (sc.prm_samples as f64 - 0.5) * 1e-3;
+    let mut d = Drv::new(kit, &sc.params, build_secs).map_err(|r| format!("constructor failed: {}", r.short()))?;
+    d.log.borrow_mut().budget = sc.query_budget;
+    live_elsewhere(&mut d, kit, &sc.problem.spec, sc.iters, sc.params.kind == PKind::Prm)?;
     let inst = d.install(&sc.problem, SampleMode::PlannerRng)?;
     let r = d.setup(inst);
     if r != Res::Done {
